@@ -498,7 +498,10 @@ def gen_cases(ctx, classes):
             fits = [gen_fit(rng, i) for i in range(rng.randint(1, 3))]
         sc = {"kind": "scenario", "flavour": "dir", "fits": fits, "completed_only": rng.random() < 0.25}
         if k >= 3 and rng.random() < 0.2:
-            singles = [i for i, f in enumerate(fits) if f["type"] == "single" and f["search"]["cls"] == "Scripted"]
+            # (a copied fit with analyses children makes add_directory raise IntegrityError on the children's ids:
+            #  the model predicts it; the docstring of add_directory excludes adding the same results twice)
+            singles = [i for i, f in enumerate(fits) if f["type"] == "single" and f["search"]["cls"] == "Scripted"
+                       and f.get("n_analyses", 1) == 1]
             if singles:
                 sc["copies"] = [{"fit": rng.choice(singles), "to": "copy"}]
         scen.append(sc)
@@ -679,6 +682,9 @@ def spec_of(f, rec, entry):
     insts = rec.get("insts") or [""] * len(sc["vectors"])
     keys = rec.get("vec_keys") or ["p%d" % k for k in range(n)]
     samples = [(kv_str(list(zip(keys, [hexf(x) for x in v[:n]]))), fkey(ll), insts[i]) for i, (v, ll) in enumerate(zip(sc["vectors"], sc["logl"]))]
+    if "model:arith-prior" in model_labels(f["model"]) and entry is not None and samples_of(entry) is not None:
+        # the column names samples.csv gives to compound priors are not modelled (C07/C09): take them as found
+        samples = samples_of(entry)
     na = f.get("n_analyses", 1)
     rc = (entry or {}).get("recomputed") or {}
     return {
@@ -728,7 +734,7 @@ def coq_case(c, r):
             specs.append(s)
             found.append(c_folder(folder_of(e)) if e else c_folder(dict(folder_of({"rel": "MISSING", "metadata": False, "completed": False, "grid_marker": None, "parent_identifier": None}))))
             d = drows.get(rec["identifier"])
-            if f.get("n_analyses", 1) > 1 or (r.get("direct") or {}).get("exc"):
+            if f.get("n_analyses", 1) > 1 or (r.get("direct") or {}).get("exc") or "model:arith-prior" in model_labels(f["model"]):
                 direct.append("None")
             else:
                 direct.append("(Some %s)" % (c_row(row_of(d)) if d else c_row(DUMMY_ROW)))
